@@ -218,10 +218,50 @@ def routeJudge (f : List String) (out : String) : String :=
       | _ => "bad:unparsable:" ++ (out.take 60).toString
 end route
 
+/-! c13.child  vars hdrs body status respbody
+   The real FCGIClient talks to Go's net/http/fcgi child (a standard-conforming responder written
+   independently of casket).  vars = `;`-list NAME=hexvalue of extra CGI variables, hdrs = `;`-list
+   HTTP_NAME=hexvalue, body = len:seed | x<hex>.  The answer is what the child's handler saw (variables
+   via fcgi.ProcessEnv, headers via the request, body) and what the client got back; the property is
+   that it is the input, so model and judge both render the input. -/
+def parseKVs (s : String) : Option (List (Bytes × Bytes)) :=
+  (splitList ";" s).mapM fun kv =>
+    match kv.splitOn "=" with
+    | [k, v] => do pure (b k, ← Driver.unhex v)
+    | _ => none
+
+/-- `HTTP_X_FOO` → `X-Foo` (net/http/cgi: drop `HTTP_`, `_` → `-`, canonical MIME key) -/
+def headerOfVar (k : Bytes) : Bytes :=
+  Casket.FCGI.canonicalKey ((k.drop 5).map fun c => if c == 0x5f then 0x2d else c) true
+
+def showKVs (l : List (Bytes × Bytes)) : String :=
+  ",".intercalate ((Casket.FCGI.sortHeaders l).map fun (k, v) => Driver.hex k ++ ":" ++ Driver.hex v)
+
+def childExpected : List String → Option String
+  | [vars, hdrs, body, status, rb] => do
+    let vars ← parseKVs vars
+    let hdrs ← parseKVs hdrs
+    let body ← parseBody body
+    let _ ← status.toNat?
+    let rb ← Driver.unhex rb
+    pure s!"vars={showKVs vars};hdrs={showKVs (hdrs.map fun (k, v) => (headerOfVar k, v))};body={Driver.hex body};st={status};resp={Driver.hex rb}"
+  | _ => none
+
+def childModel (f : List String) : String := (childExpected f).getD "bad-case"
+
+def childJudge (f : List String) (out : String) : String :=
+  match childExpected f with
+  | none => "bad:unparsable:case"
+  | some e =>
+    if out == e then "ok"
+    else if out.startsWith "PANIC" then "bad:panic:" ++ out
+    else "bad:child:a standard responder did not receive what was sent, or the client not what it answered"
+
 def streams : List Driver.Stream := [
   { name := "c13.wire", model := wireModel, judge := wireJudge },
   { name := "c13.demux", model := demuxModel, judge := demuxJudge },
-  { name := "c13.route", model := routeModel, judge := routeJudge }
+  { name := "c13.route", model := routeModel, judge := routeJudge },
+  { name := "c13.child", model := childModel, judge := childJudge }
 ]
 
 end Driver.C13
